@@ -6,7 +6,7 @@
    - get_opcodes tiles both sequences ([tiles]); "equal" opcodes are equal
      slices;
    - if b is a prefix of a, the opcodes are exactly [equal; delete]. *)
-From Coq Require Import List Bool Arith Lia Permutation Sorted.
+From Coq Require Import List Bool Arith Lia ZifyBool Permutation Sorted.
 From CL Require Import Model.Difflib.
 Import ListNotations.
 
@@ -150,24 +150,14 @@ Qed.
 
 Lemma flm_loop_ok xs bs alo blo : forall todo n prev best,
   skipn n xs = todo -> row_ok xs bs n prev -> best_ok xs bs alo blo n best ->
-  best_ok xs bs alo blo (length xs) (flm_loop todo (alo + n) bs blo prev best).
+  best_ok xs bs alo blo (n + length todo) (flm_loop todo (alo + n) bs blo prev best).
 Proof.
   induction todo as [|x todo IH]; intros n prev best Hs Hr Hb; cbn.
-  - assert (length xs <= n).
-    { destruct (le_lt_dec (length xs) n); [assumption|].
-      assert (length (skipn n xs) = 0) by (rewrite Hs; reflexivity).
-      rewrite skipn_length in H. lia. }
-    destruct Hb as (i' & j' & ? & ? & ? & ? & Hd). exists i', j'. repeat split; auto.
-    destruct (le_lt_dec (i' + b_k best) (length xs)); [assumption|].
-    exfalso. destruct (b_k best) as [|k] eqn:Ek; [lia|].
-    assert (length xs - i' < S k) as Hlt by lia.
-    pose proof (Hd (length xs - i') Hlt) as Hd'.
-    replace (i' + (length xs - i')) with (length xs) in Hd' by lia.
-    assert (nth_error xs (length xs) = None) as Hn by (apply nth_error_None; lia).
-    rewrite Hn in Hd'. symmetry in Hd'. apply nth_error_None in Hd'. lia.
+  - rewrite Nat.add_0_r. exact Hb.
   - assert (nth_error xs n = Some x) as Hx.
     { rewrite <- (Nat.add_0_r n), <- nth_error_skipn', Hs. reflexivity. }
     replace (S (alo + n)) with (alo + S n) by lia.
+    replace (n + S (length todo)) with (S n + length todo) by lia.
     apply IH.
     + apply (skipn_S xs n x todo Hs).
     + apply row_ok_step; assumption.
@@ -191,7 +181,7 @@ Proof.
   pose proof (flm_loop_ok (sl a alo ahi) (sl b blo bhi) alo blo (sl a alo ahi) 0
                (repeat 0 (length (sl b blo bhi))) (alo, blo, 0) eq_refl
                (row_ok_init _ _)) as H.
-  rewrite Nat.add_0_r in H.
+  rewrite Nat.add_0_r in H. cbn [Nat.add] in H.
   destruct H as (i' & j' & Hi & Hj & Hk1 & Hk2 & Hd).
   { exists 0, 0. unfold b_i, b_j, b_k; cbn. repeat split; try lia. }
   rewrite !sl_length in * by assumption.
@@ -201,6 +191,441 @@ Proof.
   destruct (i' + d <? ahi - alo) eqn:E1; [|apply Nat.ltb_ge in E1; lia].
   destruct (j' + d <? bhi - blo) eqn:E2; [|apply Nat.ltb_ge in E2; lia].
   rewrite Hi, Hj. rewrite <- !Nat.add_assoc. exact Hd.
+Qed.
+
+(* ---- get_matching_blocks: the loop -------------------------------------------- *)
+Section Blocks.
+Variables a b : list T.
+
+Definition r_alo (r : region) : nat := fst (fst (fst r)).
+Definition r_ahi (r : region) : nat := snd (fst (fst r)).
+Definition r_blo (r : region) : nat := snd (fst r).
+Definition r_bhi (r : region) : nat := snd r.
+
+(* r1 lies entirely before r2, in both sequences *)
+Definition rbefore (r1 r2 : region) : Prop := r_ahi r1 <= r_alo r2 /\ r_bhi r1 <= r_blo r2.
+Definition rcompat (r1 r2 : region) : Prop := rbefore r1 r2 \/ rbefore r2 r1.
+Definition inside (r R : region) : Prop :=
+  r_alo R <= r_alo r /\ r_ahi r <= r_ahi R /\ r_blo R <= r_blo r /\ r_bhi r <= r_bhi R.
+Definition region_ok (r : region) : Prop :=
+  r_alo r <= r_ahi r /\ r_ahi r <= length a /\ r_blo r <= r_bhi r /\ r_bhi r <= length b.
+Definition rect_of (x : block) : region := (b_i x, b_i x + b_k x, b_j x, b_j x + b_k x).
+Definition good_block (x : block) : Prop := block_ok a b x /\ 0 < b_k x.
+
+Lemma rcompat_sym r1 r2 : rcompat r1 r2 -> rcompat r2 r1.
+Proof. unfold rcompat; tauto. Qed.
+
+Lemma rcompat_inside r R X : inside r R -> r_alo r <= r_ahi r -> r_blo r <= r_bhi r ->
+  rcompat R X -> rcompat r X.
+Proof. unfold rcompat, rbefore, inside. intros; lia. Qed.
+
+Lemma FOP_perm {A} (R : A -> A -> Prop) (Rsym : forall x y, R x y -> R y x) l l' :
+  Permutation l l' -> ForallOrdPairs R l -> ForallOrdPairs R l'.
+Proof.
+  intros P; induction P as [|z l l' P IH|y z l|l l' l'' P1 IH1 P2 IH2]; intros F.
+  - exact F.
+  - inversion F as [|? ? Fz F']; subst. constructor; [|auto].
+    eapply Permutation_Forall; eassumption.
+  - inversion F as [|? ? Fy F']; subst. inversion F' as [|? ? Fz F'']; subst.
+    inversion Fy; subst. constructor; [constructor; auto|constructor; auto].
+  - auto.
+Qed.
+
+Lemma FOP_replace R0 news rest :
+  ForallOrdPairs rcompat (R0 :: rest) ->
+  Forall (fun X => inside X R0 /\ r_alo X <= r_ahi X /\ r_blo X <= r_bhi X) news ->
+  ForallOrdPairs rcompat news ->
+  ForallOrdPairs rcompat (news ++ rest).
+Proof.
+  intros H Hin Hn. inversion H as [|? ? HR Hrest]; subst.
+  induction news as [|X news IH]; cbn; [exact Hrest|].
+  inversion Hin as [|? ? (Hi & H1 & H2) Hin']; subst. inversion Hn as [|? ? HX Hn']; subst.
+  constructor; [|auto].
+  apply Forall_app; split; [exact HX|].
+  eapply Forall_impl; [|exact HR]. intros Y HY. eapply rcompat_inside; eauto.
+Qed.
+
+Definition mu (q : list region) : nat :=
+  fold_right (fun r acc => 2 * (r_ahi r - r_alo r) + 1 + acc) 0 q.
+
+Lemma mu_app q1 q2 : mu (q1 ++ q2) = mu q1 + mu q2.
+Proof.
+  induction q1 as [|r q1 IH]; [reflexivity|].
+  change (mu ((r :: q1) ++ q2)) with (2 * (r_ahi r - r_alo r) + 1 + mu (q1 ++ q2)).
+  change (mu (r :: q1)) with (2 * (r_ahi r - r_alo r) + 1 + mu q1). rewrite IH. lia.
+Qed.
+
+Definition loop_inv (q : list region) (acc : list block) : Prop :=
+  Forall region_ok q /\ Forall good_block acc /\
+  ForallOrdPairs rcompat (q ++ map rect_of acc).
+
+Lemma mb_loop_ok : forall fuel q acc, loop_inv q acc -> mu q <= fuel ->
+  exists bl, mb_loop a b fuel q acc = Some bl /\
+    Forall good_block bl /\ ForallOrdPairs rcompat (map rect_of bl).
+Proof.
+  induction fuel as [|f IH]; intros q acc (Hq & Ha & Hf) Hmu.
+  - destruct q as [|[[[alo ahi] blo] bhi] q]; cbn in *; [|lia].
+    exists acc. auto.
+  - destruct q as [|[[[alo ahi] blo] bhi] q]; [exists acc; cbn in *; auto|].
+    inversion Hq as [|? ? (R1 & R2 & R3 & R4) Hq']; subst. cbn in R1, R2, R3, R4.
+    pose proof (find_longest_match_ok a b alo ahi blo bhi R1 R2 R3 R4) as Hx.
+    cbn [mb_loop]. destruct (find_longest_match a b alo ahi blo bhi) as [[i j] k] eqn:Ex.
+    unfold b_i, b_j, b_k in Hx; cbn in Hx. destruct Hx as (X1 & X2 & X3 & X4 & Xok).
+    assert (2 * (ahi - alo) + 1 + mu q <= S f) as Hmu' by exact Hmu. clear Hmu.
+    destruct (Nat.eqb k 0) eqn:Ek.
+    + apply IH; [|lia]. split; [exact Hq'|]. split; [exact Ha|].
+      cbn in Hf. inversion Hf; assumption.
+    + apply Nat.eqb_neq in Ek.
+      set (c1 := (alo <? i) && (blo <? j)). set (c2 := (i + k <? ahi) && (j + k <? bhi)).
+      set (N := (if c2 then [(i + k, ahi, j + k, bhi)] else []) ++
+                (if c1 then [(alo, i, blo, j)] else [])).
+      assert ((if c2 then (i + k, ahi, j + k, bhi) :: (if c1 then (alo, i, blo, j) :: q else q)
+               else (if c1 then (alo, i, blo, j) :: q else q)) = N ++ q) as ->.
+      { unfold N. destruct c1, c2; reflexivity. }
+      apply IH.
+      * split; [|split].
+        -- apply Forall_app; split; [|exact Hq'].
+           unfold N. apply Forall_app; split.
+           ++ destruct c2; constructor; [|constructor]. unfold region_ok; cbn. lia.
+           ++ destruct c1; constructor; [|constructor]. unfold region_ok; cbn. lia.
+        -- apply Forall_app; split; [exact Ha|]. constructor; [|constructor].
+           split; [exact Xok|]. unfold b_k; cbn. lia.
+        -- rewrite map_app. cbn [map]. rewrite app_assoc.
+           apply (FOP_perm rcompat rcompat_sym (rect_of (i, j, k) :: (N ++ q) ++ map rect_of acc)).
+           { apply Permutation_cons_append. }
+           rewrite <- app_assoc.
+           change (rect_of (i, j, k) :: N ++ q ++ map rect_of acc)
+             with ((rect_of (i, j, k) :: N) ++ q ++ map rect_of acc).
+           apply (FOP_replace (alo, ahi, blo, bhi)); [exact Hf| |].
+           ++ constructor.
+              { unfold inside, rect_of, r_alo, r_ahi, r_blo, r_bhi, b_i, b_j, b_k; cbn. lia. }
+              unfold N. apply Forall_app; split.
+              ** destruct c2; constructor; [|constructor].
+                 unfold inside, r_alo, r_ahi, r_blo, r_bhi; cbn. lia.
+              ** destruct c1; constructor; [|constructor].
+                 unfold inside, r_alo, r_ahi, r_blo, r_bhi; cbn. lia.
+           ++ unfold N. destruct c1, c2; cbn; repeat constructor;
+                unfold rcompat, rbefore, rect_of, r_alo, r_ahi, r_blo, r_bhi, b_i, b_j, b_k; cbn; lia.
+      * assert (mu (N ++ q) + 1 <= 2 * (ahi - alo) + 1 + mu q); [|lia].
+        rewrite mu_app. generalize (mu q) as m; intros m.
+        unfold N. subst c1 c2.
+        destruct (alo <? i) eqn:E1; destruct (blo <? j) eqn:E2;
+          destruct (i + k <? ahi) eqn:E3; destruct (j + k <? bhi) eqn:E4; cbn;
+          unfold r_ahi, r_alo; cbn; lia.
+Qed.
+
+(* ---- sorting ----------------------------------------------------------------- *)
+Lemma block_leb_total x y : block_leb x y = false -> block_leb y x = true.
+Proof.
+  unfold block_leb. destruct x as [[i1 j1] k1], y as [[i2 j2] k2]; unfold b_i, b_j, b_k; cbn.
+  intros H.
+  destruct (i1 <? i2) eqn:A1; destruct (i2 <? i1) eqn:A2; destruct (Nat.eqb i1 i2) eqn:A3;
+    destruct (Nat.eqb i2 i1) eqn:A4; destruct (j1 <? j2) eqn:B1; destruct (j2 <? j1) eqn:B2;
+    destruct (Nat.eqb j1 j2) eqn:B3; destruct (Nat.eqb j2 j1) eqn:B4;
+    destruct (k1 <=? k2) eqn:C1; destruct (k2 <=? k1) eqn:C2; cbn in *; try congruence;
+    repeat match goal with
+           | H : (_ <? _) = true |- _ => apply Nat.ltb_lt in H
+           | H : (_ <? _) = false |- _ => apply Nat.ltb_ge in H
+           | H : (_ <=? _) = true |- _ => apply Nat.leb_le in H
+           | H : (_ <=? _) = false |- _ => apply Nat.leb_gt in H
+           | H : Nat.eqb _ _ = true |- _ => apply Nat.eqb_eq in H
+           | H : Nat.eqb _ _ = false |- _ => apply Nat.eqb_neq in H
+           end; lia.
+Qed.
+
+Definition leR (x y : block) : Prop := block_leb x y = true.
+
+Lemma insert_block_perm x l : Permutation (insert_block x l) (x :: l).
+Proof.
+  induction l as [|y l IH]; cbn; [reflexivity|].
+  destruct (block_leb x y); [reflexivity|].
+  rewrite IH. apply perm_swap.
+Qed.
+
+Lemma insert_block_sorted x l : Sorted leR l -> Sorted leR (insert_block x l).
+Proof.
+  induction l as [|y l IH]; intros H; cbn; [repeat constructor|].
+  destruct (block_leb x y) eqn:E.
+  - constructor; [exact H|constructor; exact E].
+  - inversion H as [|? ? Hs Hh]; subst. constructor; [auto|].
+    destruct l as [|z l]; cbn.
+    + constructor. apply block_leb_total; exact E.
+    + destruct (block_leb x z); constructor.
+      * apply block_leb_total; exact E.
+      * inversion Hh; assumption.
+Qed.
+
+Lemma sort_blocks_perm l : Permutation (sort_blocks l) l.
+Proof.
+  induction l as [|x l IH]; cbn; [reflexivity|].
+  rewrite insert_block_perm. constructor. exact IH.
+Qed.
+
+Lemma sort_blocks_sorted l : Sorted leR (sort_blocks l).
+Proof. induction l; cbn; [constructor|apply insert_block_sorted; assumption]. Qed.
+
+(* ---- chains -------------------------------------------------------------------- *)
+Fixpoint chain (i j : nat) (l : list block) : Prop :=
+  match l with
+  | [] => True
+  | x :: r => i <= b_i x /\ j <= b_j x /\ chain (b_i x + b_k x) (b_j x + b_k x) r
+  end.
+
+Lemma chain_sorted : forall l i j, Sorted leR l -> ForallOrdPairs rcompat (map rect_of l) ->
+  Forall good_block l ->
+  match l with x :: _ => i <= b_i x /\ j <= b_j x | [] => True end ->
+  chain i j l.
+Proof.
+  induction l as [|x l IH]; intros i j Hs Hf Hg Hh; cbn; [exact I|].
+  destruct Hh as [H1 H2]. split; [exact H1|]. split; [exact H2|].
+  inversion Hs as [|? ? Hs' Hhd]; subst. cbn in Hf. inversion Hf as [|? ? Hx Hf']; subst.
+  inversion Hg as [|? ? _ Hg']; subst.
+  apply IH; auto.
+  destruct l as [|y l]; [exact I|].
+  inversion Hhd as [|? ? Hle]; subst. cbn in Hx. inversion Hx as [|? ? Hc _]; subst.
+  inversion Hg' as [|? ? [_ Hky] _]; subst.
+  unfold leR, block_leb in Hle. unfold rcompat, rbefore, rect_of, r_alo, r_ahi, r_blo, r_bhi in Hc.
+  cbn in Hc. destruct Hc as [Hc|Hc]; [lia|].
+  exfalso.
+  destruct (b_i x <? b_i y) eqn:A1; [apply Nat.ltb_lt in A1; lia|].
+  destruct (Nat.eqb (b_i x) (b_i y)) eqn:A2; [apply Nat.eqb_eq in A2; lia|].
+  cbn in Hle. discriminate.
+Qed.
+
+Lemma block_ok_merge i1 j1 k1 k2 :
+  block_ok a b (i1, j1, k1) -> block_ok a b (i1 + k1, j1 + k1, k2) ->
+  block_ok a b (i1, j1, k1 + k2).
+Proof.
+  unfold block_ok, b_i, b_j, b_k; cbn. intros (A1 & A2 & A3) (B1 & B2 & B3).
+  repeat split; try lia. intros d Hd.
+  destruct (le_lt_dec k1 d) as [Hge|Hlt]; [|apply A3; exact Hlt].
+  specialize (B3 (d - k1) ltac:(lia)).
+  replace (i1 + k1 + (d - k1)) with (i1 + d) in B3 by lia.
+  replace (j1 + k1 + (d - k1)) with (j1 + d) in B3 by lia. exact B3.
+Qed.
+
+Lemma collapse_chain : forall l i1 j1 k1 i j,
+  chain (i1 + k1) (j1 + k1) l -> Forall (block_ok a b) l -> block_ok a b (i1, j1, k1) ->
+  i <= i1 -> j <= j1 ->
+  chain i j (collapse l i1 j1 k1) /\ Forall (block_ok a b) (collapse l i1 j1 k1).
+Proof.
+  induction l as [|[[i2 j2] k2] l IH]; intros i1 j1 k1 i j Hc Hl Hb Hi Hj; cbn.
+  - destruct (Nat.eqb k1 0); cbn; [auto|]. unfold b_i, b_j; cbn. repeat split; auto.
+  - cbn in Hc. unfold b_i, b_j, b_k in Hc; cbn in Hc. destruct Hc as (C1 & C2 & C3).
+    inversion Hl as [|? ? Hb2 Hl']; subst.
+    destruct (Nat.eqb (i1 + k1) i2 && Nat.eqb (j1 + k1) j2) eqn:E.
+    + apply andb_true_iff in E. destruct E as [E1 E2].
+      apply Nat.eqb_eq in E1. apply Nat.eqb_eq in E2. subst i2 j2.
+      apply IH; auto.
+      * replace (i1 + (k1 + k2)) with (i1 + k1 + k2) by lia.
+        replace (j1 + (k1 + k2)) with (j1 + k1 + k2) by lia. exact C3.
+      * apply block_ok_merge; assumption.
+    + destruct (IH i2 j2 k2 (i1 + k1) (j1 + k1) C3 Hl' Hb2 C1 C2) as [D1 D2].
+      destruct (Nat.eqb k1 0) eqn:Ek; cbn.
+      * apply Nat.eqb_eq in Ek. subst k1.
+        destruct (IH i2 j2 k2 i j C3 Hl' Hb2 ltac:(lia) ltac:(lia)) as [F1 F2]. auto.
+      * unfold b_i, b_j, b_k; cbn. repeat split; auto.
+Qed.
+
+Lemma chain_sentinel : forall l i j, chain i j l -> Forall (block_ok a b) l ->
+  i <= length a -> j <= length b ->
+  chain i j (l ++ [(length a, length b, 0)]).
+Proof.
+  induction l as [|x l IH]; intros i j Hc Hl Hi Hj; cbn.
+  - unfold b_i, b_j; cbn. auto.
+  - cbn in Hc. destruct Hc as (C1 & C2 & C3). inversion Hl as [|? ? (B1 & B2 & _) Hl']; subst.
+    repeat split; auto.
+Qed.
+
+(* ---- opcodes --------------------------------------------------------------------- *)
+Definition op_ok (o : opcode) : Prop :=
+  o_i1 o <= o_i2 o /\ o_i2 o <= length a /\ o_j1 o <= o_j2 o /\ o_j2 o <= length b /\
+  match o_tag o with
+  | Equal => o_i1 o < o_i2 o /\ o_i2 o - o_i1 o = o_j2 o - o_j1 o /\
+             forall d, d < o_i2 o - o_i1 o -> nth_error a (o_i1 o + d) = nth_error b (o_j1 o + d)
+  | Delete => o_i1 o < o_i2 o /\ o_j1 o = o_j2 o
+  | Insert => o_i1 o = o_i2 o /\ o_j1 o < o_j2 o
+  | Replace => o_i1 o < o_i2 o /\ o_j1 o < o_j2 o
+  end.
+
+(* the opcodes tile both sequences from (i, j) to the ends *)
+Fixpoint tiles (ops : list opcode) (i j : nat) : Prop :=
+  match ops with
+  | [] => i = length a /\ j = length b
+  | o :: r => o_i1 o = i /\ o_j1 o = j /\ op_ok o /\ tiles r (o_i2 o) (o_j2 o)
+  end.
+
+Lemma opcodes_tiles : forall l i j,
+  chain i j (l ++ [(length a, length b, 0)]) -> Forall (block_ok a b) l ->
+  tiles (opcodes_of (l ++ [(length a, length b, 0)]) i j) i j.
+Proof.
+  induction l as [|[[ai bj] size] l IH]; intros i j Hc Hl.
+  - cbn in Hc. unfold b_i, b_j in Hc; cbn in Hc. destruct Hc as (C1 & C2 & _).
+    cbn. rewrite !Nat.add_0_r.
+    destruct (i <? length a) eqn:E1; destruct (j <? length b) eqn:E2; cbn;
+      try apply Nat.ltb_lt in E1; try apply Nat.ltb_ge in E1;
+      try apply Nat.ltb_lt in E2; try apply Nat.ltb_ge in E2;
+      unfold op_ok; cbn; repeat split; try lia.
+  - cbn in Hc. unfold b_i, b_j, b_k in Hc; cbn in Hc. destruct Hc as (C1 & C2 & C3).
+    inversion Hl as [|? ? (B1 & B2 & B3) Hl']; subst. unfold b_i, b_j, b_k in B1, B2, B3; cbn in *.
+    specialize (IH _ _ C3 Hl').
+    assert (tiles ((if Nat.eqb size 0 then [] else [mkop Equal ai (ai + size) bj (bj + size)]) ++
+                   opcodes_of (l ++ [(length a, length b, 0)]) (ai + size) (bj + size)) ai bj) as Heq.
+    { destruct (Nat.eqb size 0) eqn:Es; cbn.
+      - apply Nat.eqb_eq in Es. subst size. rewrite !Nat.add_0_r in *. exact IH.
+      - apply Nat.eqb_neq in Es. repeat split; auto; unfold op_ok; cbn; repeat split; try lia.
+        intros d Hd. apply B3. lia. }
+    destruct (i <? ai) eqn:E1; destruct (j <? bj) eqn:E2; cbn [andb app];
+      try apply Nat.ltb_lt in E1; try apply Nat.ltb_ge in E1;
+      try apply Nat.ltb_lt in E2; try apply Nat.ltb_ge in E2.
+    + cbn. repeat split; auto; unfold op_ok; cbn; repeat split; lia.
+    + cbn. repeat split; auto; unfold op_ok; cbn; repeat split; lia.
+    + cbn. repeat split; auto; unfold op_ok; cbn; repeat split; lia.
+    + assert (i = ai) by lia. assert (j = bj) by lia. subst. exact Heq.
+Qed.
+
+End Blocks.
+
+Theorem get_opcodes_tiles a b :
+  exists ops, get_opcodes a b = Some ops /\ tiles a b ops 0 0.
+Proof.
+  unfold get_opcodes, get_matching_blocks.
+  destruct (mb_loop_ok a b (mb_fuel a) [(0, length a, 0, length b)] []) as (bl & -> & Hg & Hf).
+  - split; [|split].
+    + constructor; [|constructor]. unfold region_ok, r_alo, r_ahi, r_blo, r_bhi; cbn. lia.
+    + constructor.
+    + cbn. repeat constructor.
+  - unfold mb_fuel, mu, r_ahi, r_alo; cbn. lia.
+  - eexists; split; [reflexivity|].
+    assert (Forall (good_block a b) (sort_blocks bl)) as Hg'.
+    { eapply Permutation_Forall; [apply Permutation_sym, sort_blocks_perm|exact Hg]. }
+    assert (ForallOrdPairs rcompat (map rect_of (sort_blocks bl))) as Hf'.
+    { eapply (FOP_perm rcompat rcompat_sym); [|exact Hf].
+      apply Permutation_map, Permutation_sym, sort_blocks_perm. }
+    assert (chain 0 0 (sort_blocks bl)) as Hc.
+    { apply (chain_sorted a b); auto; [apply sort_blocks_sorted|].
+      destruct (sort_blocks bl); [exact I|lia]. }
+    assert (Forall (block_ok a b) (sort_blocks bl)) as Hb.
+    { eapply Forall_impl; [|exact Hg']. intros x [H _]; exact H. }
+    destruct (collapse_chain a b (sort_blocks bl) 0 0 0 0 0 Hc Hb) as [D1 D2]; try lia.
+    { unfold block_ok, b_i, b_j, b_k; cbn. repeat split; try lia. }
+    apply opcodes_tiles; [|exact D2].
+    apply chain_sentinel; auto; lia.
+Qed.
+
+(* ---- b is a prefix of a ---------------------------------------------------------- *)
+Lemma eqb_refl x : eqb x x = true.
+Proof. apply eqb_eq; reflexivity. Qed.
+
+Lemma scan_row_noop i blo : forall row t best,
+  (forall u, u < length row -> nth u row 0 <= b_k best) -> scan_row i blo t row best = best.
+Proof.
+  induction row as [|k row IH]; intros t best H; cbn; [reflexivity|].
+  pose proof (H 0 ltac:(cbn; lia)) as H0. cbn in H0.
+  destruct (b_k best <? k) eqn:E; [apply Nat.ltb_lt in E; lia|].
+  apply IH. intros u Hu. apply (H (S u)). cbn; lia.
+Qed.
+
+Lemma scan_row_app i blo : forall r1 r2 t best,
+  scan_row i blo t (r1 ++ r2) best = scan_row i blo (t + length r1) r2 (scan_row i blo t r1 best).
+Proof.
+  induction r1 as [|k r1 IH]; intros r2 t best; cbn.
+  - rewrite Nat.add_0_r. reflexivity.
+  - rewrite IH. replace (S t + length r1) with (t + S (length r1)) by lia. reflexivity.
+Qed.
+
+Lemma flm_prefix_loop (bs c : list T) : forall todo n prev,
+  skipn n (bs ++ c) = todo -> row_ok (bs ++ c) bs n prev ->
+  (0 < n -> n <= length bs -> nth (n - 1) prev 0 = n) ->
+  flm_loop todo n bs 0 prev (0, 0, Nat.min n (length bs)) = (0, 0, length bs).
+Proof.
+  induction todo as [|x todo IH]; intros n prev Hs Hr Hd; cbn.
+  - assert (length (skipn n (bs ++ c)) = 0) as Hl by (rewrite Hs; reflexivity).
+    rewrite skipn_length, app_length in Hl. f_equal. lia.
+  - assert (nth_error (bs ++ c) n = Some x) as Hx.
+    { rewrite <- (Nat.add_0_r n), <- nth_error_skipn', Hs. reflexivity. }
+    pose proof (row_ok_step (bs ++ c) bs n x prev Hx Hr) as Hr'.
+    destruct Hr as [Hpl _]. destruct Hr' as [Hl He].
+    set (row := next_row x bs prev 0) in *.
+    destruct (le_lt_dec (length bs) n) as [Hge|Hlt].
+    + (* rows below the prefix: nothing can beat length bs *)
+      rewrite scan_row_noop.
+      * replace (Nat.min n (length bs)) with (Nat.min (S n) (length bs)) by lia.
+        apply IH; [apply (skipn_S _ n x todo Hs)|split; assumption|lia].
+      * intros u Hu. destruct (He u ltac:(lia)) as (_ & H2 & _). unfold b_k; cbn. lia.
+    + (* row n < length bs: the diagonal entry is n + 1 *)
+      assert (nth_error bs n = Some x) as Hy.
+      { rewrite nth_error_app1 in Hx by exact Hlt. exact Hx. }
+      assert (nth n row 0 = S n) as Hdiag.
+      { unfold row. rewrite (next_row_nth x bs prev 0 n x Hpl Hy), eqb_refl.
+        destruct n as [|n']; [reflexivity|]. f_equal.
+        specialize (Hd ltac:(lia) ltac:(lia)). replace (S n' - 1) with n' in Hd by lia. exact Hd. }
+      destruct (nth_split row 0 (n := n)) as (l1 & l2 & Hrow & Hl1); [lia|].
+      rewrite Hdiag in Hrow.
+      assert (scan_row n 0 0 row (0, 0, Nat.min n (length bs)) = (0, 0, S n)) as ->.
+      { rewrite Hrow, scan_row_app.
+        rewrite (scan_row_noop n 0 l1 0 (0, 0, Nat.min n (length bs))).
+        2:{ intros u Hu. unfold b_k; cbn [snd].
+            assert (nth u l1 0 = nth u row 0) as -> by (rewrite Hrow, app_nth1 by lia; reflexivity).
+            destruct (He u ltac:(lia)) as (_ & H2 & _). lia. }
+        cbn [scan_row]. unfold b_k at 1; cbn [snd].
+        replace (Nat.min n (length bs)) with n by lia.
+        assert (n <? S n = true) as -> by (apply Nat.ltb_lt; lia).
+        rewrite scan_row_noop.
+        + rewrite Hl1. replace (S n - S n) with 0 by lia.
+          replace (S (0 + (0 + n)) - S n) with 0 by lia. reflexivity.
+        + intros u Hu. unfold b_k; cbn [snd].
+          assert (nth u l2 0 = nth (S n + u) row 0) as ->.
+          { rewrite Hrow, app_nth2 by lia. rewrite Hl1.
+            replace (S n + u - n) with (S u) by lia. reflexivity. }
+          assert (S n + u < length bs) as Hlt'.
+          { rewrite <- Hl, Hrow, app_length. cbn. lia. }
+          destruct (He (S n + u) Hlt') as (H1 & _ & _). exact H1. }
+      replace (S n) with (Nat.min (S n) (length bs)) at 2 by lia.
+      apply IH; [apply (skipn_S _ n x todo Hs)|split; assumption|].
+      intros _ _. replace (S n - 1) with n by lia. exact Hdiag.
+Qed.
+
+Lemma flm_prefix (bs c : list T) :
+  find_longest_match (bs ++ c) bs 0 (length (bs ++ c)) 0 (length bs) = (0, 0, length bs).
+Proof.
+  unfold find_longest_match, sl. rewrite !Nat.sub_0_r, !skipn_O, !firstn_all.
+  apply (flm_prefix_loop bs c (bs ++ c) 0 (repeat 0 (length bs)) eq_refl (row_ok_init _ _)).
+  lia.
+Qed.
+
+Lemma mb_loop_nil a b fuel acc : mb_loop a b fuel [] acc = Some acc.
+Proof. destruct fuel; reflexivity. Qed.
+
+(* if b is a proper prefix of a, the opcodes are "equal" over b (when b is
+   not empty) and one "delete" of the rest of a *)
+Theorem get_opcodes_prefix (bs c : list T) : c <> [] ->
+  get_opcodes (bs ++ c) bs =
+  Some ((if Nat.eqb (length bs) 0 then [] else [mkop Equal 0 (length bs) 0 (length bs)]) ++
+        [mkop Delete (length bs) (length (bs ++ c)) (length bs) (length bs)]).
+Proof.
+  intros Hc. unfold get_opcodes, get_matching_blocks, mb_fuel.
+  replace (2 * length (bs ++ c) + 2) with (S (2 * length (bs ++ c) + 1)) by lia.
+  cbn [mb_loop]. rewrite flm_prefix.
+  assert (0 < length c) as Hlc by (destruct c; [contradiction|cbn; lia]).
+  destruct (Nat.eqb (length bs) 0) eqn:E.
+  - apply Nat.eqb_eq in E. rewrite E. cbn [Nat.eqb]. rewrite mb_loop_nil.
+    cbn [collapse sort_blocks fold_right app opcodes_of Nat.eqb].
+    rewrite app_length, E. cbn [Nat.add]. rewrite Nat.eqb_refl. cbn [app opcodes_of].
+    assert (0 <? length c = true) as -> by (apply Nat.ltb_lt; lia).
+    rewrite Nat.ltb_irrefl, Nat.eqb_refl. reflexivity.
+  - apply Nat.eqb_neq in E.
+    assert (0 <? 0 = false) as -> by reflexivity. cbn [andb].
+    assert (0 + length bs <? length bs = false) as -> by (apply Nat.ltb_ge; lia).
+    rewrite andb_false_r. rewrite mb_loop_nil.
+    cbn [app sort_blocks fold_right insert_block collapse Nat.add].
+    rewrite !Nat.eqb_refl. cbn [andb collapse].
+    rewrite (proj2 (Nat.eqb_neq (length bs) 0) E).
+    cbn [app opcodes_of]. rewrite Nat.ltb_irrefl. cbn [andb app].
+    rewrite (proj2 (Nat.eqb_neq (length bs) 0) E). cbn [app Nat.add].
+    rewrite Nat.add_0_r, Nat.ltb_irrefl, andb_false_r.
+    assert (length bs <? length (bs ++ c) = true) as -> by (apply Nat.ltb_lt; rewrite app_length; lia).
+    rewrite Nat.eqb_refl. reflexivity.
 Qed.
 
 End DifflibProofs.
